@@ -32,6 +32,38 @@ def _numexp_funcs(repo: Repo):
     return [f for f in repo.all_funcs() if f.mod is m]
 
 
+_OPERATOR_FUNCS = {"add": ast.Add, "sub": ast.Sub, "mul": ast.Mult, "truediv": ast.Div,
+                   "lt": ast.Lt, "le": ast.LtE, "gt": ast.Gt, "ge": ast.GtE, "eq": ast.Eq, "ne": ast.NotEq}
+
+
+def _as_lambda(repo: Repo, m, v: ast.AST):
+    """a table value as a two-parameter lambda: a lambda, operator.<fn>, or a module-level function that just returns an expression"""
+    if isinstance(v, ast.Lambda):
+        return v
+    name = None
+    if isinstance(v, ast.Attribute) and isinstance(v.value, ast.Name) and v.value.id == "operator":
+        name = v.attr
+    elif isinstance(v, ast.Name):
+        res = repo.lookup(m.name, v.id)
+        if res and res[0] == "external" and v.id in _OPERATOR_FUNCS:
+            name = v.id
+        elif res and res[0] == "func":
+            fi = repo.funcs.get(f"{repo.mods[res[2]].short}::{v.id}") if len(res) > 2 and res[2] in repo.mods else repo.func_opt(f"{m.short}::{v.id}")
+            if fi is not None:
+                body = [st for st in fi.node.body if not (isinstance(st, ast.Expr) and isinstance(st.value, ast.Constant))]
+                if len(body) == 1 and isinstance(body[0], ast.Return) and body[0].value is not None and len(fi.params) == 2:
+                    lam = ast.Lambda(args=fi.node.args, body=body[0].value)
+                    return ast.copy_location(lam, fi.node)
+            return None
+    if name in _OPERATOR_FUNCS:
+        op = _OPERATOR_FUNCS[name]
+        x, y = ast.Name(id="x", ctx=ast.Load()), ast.Name(id="y", ctx=ast.Load())
+        body = ast.BinOp(left=x, op=op(), right=y) if issubclass(op, ast.operator) else ast.Compare(left=x, ops=[op()], comparators=[y])
+        lam = ast.Lambda(args=ast.arguments(posonlyargs=[], args=[ast.arg(arg="x"), ast.arg(arg="y")], kwonlyargs=[], kw_defaults=[], defaults=[]), body=body)
+        return ast.fix_missing_locations(ast.copy_location(lam, v))
+    return None
+
+
 def rule_arith(repo: Repo) -> RuleResult:
     r = RuleResult("C12.arith", "NUMERICAL_BINARY_OPERATORS[k] computes x k y with x the first parameter",
                    "PDDL prefix operand order: (- a b) = a-b, (/ a b) = a/b")
@@ -43,7 +75,9 @@ def rule_arith(repo: Repo) -> RuleResult:
             r.fail(Finding("C12.arith", (m.short, "NUMERICAL_BINARY_OPERATORS", str(m.path)), f"table-key:{key}",
                            f"operator {key!r} missing from NUMERICAL_BINARY_OPERATORS"))
             continue
-        lam = tab[key]
+        lam = _as_lambda(repo, m, tab[key])
+        if lam is None:
+            raise AnalysisError(f"C12.arith: table value for {key!r} is not interpreted: {unparse(tab[key])}")
         try:
             got = A.arith_lambda(lam)
         except A.Uninterpretable as e:
@@ -71,10 +105,9 @@ def rule_compare(repo: Repo) -> RuleResult:
         if key not in tab:
             r.fail(Finding("C12.compare", owner, f"table-key:{key}", f"comparison {key!r} missing from COMPARISON_OPERATORS"))
             continue
-        lam = tab[key]
-        if isinstance(lam, ast.Name):
-            fn = repo.func_opt(f"{NE}::{lam.id}")
-            raise AnalysisError(f"C12.compare: table value for {key!r} is a named function ({lam.id}); only lambdas are interpreted")
+        lam = _as_lambda(repo, m, tab[key])
+        if lam is None:
+            raise AnalysisError(f"C12.compare: table value for {key!r} is not interpreted: {unparse(tab[key])}")
         try:
             row, uses = A.cmp_table(lam)
         except A.Uninterpretable as e:
@@ -173,21 +206,37 @@ def _child_indices(paths) -> set:
 
 
 def rule_order(repo: Repo, rid: str = "C12.order") -> RuleResult:
+    from .. import strshape as S
+    from ..inline import flatten
     r = RuleResult(rid, "child 0 is the left operand / assignment target, child 1 the right operand, at every use",
                    "PDDL prefix notation (op left right)")
     ne_mod = repo.module(NE)
     gu_mod = repo.module("models.grounding_utils")
-    funcs = [f for f in repo.all_funcs() if f.mod in (ne_mod, gu_mod)]
+    funcs = [flatten(repo, f) for f in repo.all_funcs() if f.mod in (ne_mod, gu_mod)]
     tables = {"NUMERICAL_BINARY_OPERATORS", "COMPARISON_OPERATORS", "ASSIGNMENT_EXPRESSIONS"}
+    seen_kinds = set()
+    done = set()
+
+    def once(node, kind) -> bool:
+        k = (getattr(node, "lineno", 0), getattr(node, "col_offset", 0), kind)
+        if k in done:
+            return False
+        done.add(k)
+        return True
+
     for f in funcs:
         p = L.prov(repo, f)
         for call in L.calls_in(f.node):
-            # (a) calls through an operator table: TABLE[op](a, b)
-            if isinstance(call.func, ast.Subscript):
-                base = p.trace(call.func.value)
-                tabs = {x[0][7:] for x in base if x[0].startswith("global:")} & tables
-                if tabs and len(call.args) == 2:
+            # (a) calls through an operator table: TABLE[op](a, b), also through a local alias  fn = TABLE[op]; fn(a, b)
+            if len(call.args) == 2 and not isinstance(call.func, ast.Attribute):
+                try:
+                    base = p.trace(call.func)
+                except KeyError:
+                    base = set()
+                tabs = {x[0][7:] for x in base if x[0].startswith("global:") and x[1:] in (("item",), ("call:get",))} & tables
+                if tabs and once(call, "table"):
                     r.site(L.site(f, call, "table call"))
+                    seen_kinds |= {"table:" + t for t in tabs}
                     i0, i1 = _child_indices(p.trace(call.args[0])), _child_indices(p.trace(call.args[1]))
                     if i0 == {"0"} and i1 == {"1"}:
                         r.ok({"function": f.qn, "call": unparse(call), "arg0_from_child": sorted(i0), "arg1_from_child": sorted(i1)})
@@ -201,44 +250,89 @@ def rule_order(repo: Repo, rid: str = "C12.order") -> RuleResult:
                 if valkw and isinstance(valkw[0], ast.Constant):
                     continue  # a new operator node (algebraic rewriting), not a copy / translation of an existing node
                 for k in call.keywords:
-                    if k.arg == "children" and isinstance(k.value, ast.List) and len(k.value.elts) == 2:
-                        e0, e1 = p.trace(k.value.elts[0]), p.trace(k.value.elts[1])
-                        i0, i1 = _child_indices(e0), _child_indices(e1)
-                        if i0 or i1:
-                            r.site(L.site(f, call, "tree rebuild"))
-                            if i0 == {"0"} and i1 == {"1"}:
-                                r.ok({"function": f.qn, "children": [unparse(x, 50) for x in k.value.elts]})
-                            else:
-                                r.fail(Finding(rid, f, "rebuild:children-order",
-                                               f"rebuilt children come from source children {sorted(i0)} and {sorted(i1)}; expected [0] and [1]", node=call))
+                    if k.arg != "children":
+                        continue
+                    kids = _two_elements(p, k.value)
+                    if kids is None:
+                        continue
+                    e0, e1 = p.trace(kids[0]), p.trace(kids[1])
+                    i0, i1 = _child_indices(e0), _child_indices(e1)
+                    if i0 or i1:
+                        if not once(call, "rebuild"):
+                            continue
+                        r.site(L.site(f, call, "tree rebuild"))
+                        seen_kinds.add("rebuild")
+                        if i0 == {"0"} and i1 == {"1"}:
+                            r.ok({"function": f.qn, "children": [unparse(x, 50) for x in kids]})
                         else:
-                            # built from the parsed list: positions 1 and 2 of the AST
-                            a0 = {s for pth in e0 for s in pth if s.startswith("item:") and pth[0].startswith("param:")}
-                            a1 = {s for pth in e1 for s in pth if s.startswith("item:") and pth[0].startswith("param:")}
-                            if a0 or a1:
-                                r.site(L.site(f, call, "tree construction"))
-                                if a0 == {"item:1"} and a1 == {"item:2"}:
-                                    r.ok({"function": f.qn, "children_from_ast_positions": [sorted(a0), sorted(a1)]})
-                                else:
-                                    r.fail(Finding(rid, f, "construct:children-order",
-                                                   f"children built from AST positions {sorted(a0)} and {sorted(a1)}; expected [1] and [2]", node=call))
-        # (c) printers: f-strings mentioning results derived from children[0] and children[1]
-        for js in [n for n in ast.walk(f.node) if isinstance(n, ast.JoinedStr)]:
+                            r.fail(Finding(rid, f, "rebuild:children-order",
+                                           f"rebuilt children come from source children {sorted(i0)} and {sorted(i1)}; expected [0] and [1]", node=call))
+                    else:
+                        # built from the parsed list: positions 1 and 2 of the AST
+                        a0 = {s_ for pth in e0 for s_ in pth if s_.startswith("item:") and pth[0].startswith("param:")}
+                        a1 = {s_ for pth in e1 for s_ in pth if s_.startswith("item:") and pth[0].startswith("param:")}
+                        if (a0 or a1) and once(call, "construct"):
+                            r.site(L.site(f, call, "tree construction"))
+                            seen_kinds.add("construct")
+                            if a0 == {"item:1"} and a1 == {"item:2"}:
+                                r.ok({"function": f.qn, "children_from_ast_positions": [sorted(a0), sorted(a1)]})
+                            else:
+                                r.fail(Finding(rid, f, "construct:children-order",
+                                               f"children built from AST positions {sorted(a0)} and {sorted(a1)}; expected [1] and [2]", node=call))
+        # (c) printers: text that mentions results derived from children[0] and children[1], however it is assembled
+        ev = None
+        cands = [n.value for n in ast.walk(f.node) if isinstance(n, ast.Return) and n.value is not None] + \
+                [n.value for n in ast.walk(f.node) if isinstance(n, ast.Assign) and len(n.targets) == 1 and isinstance(n.targets[0], ast.Name)
+                 and n.targets[0].id.startswith("__ret__")]
+        for e in cands:
+            if not isinstance(e, (ast.JoinedStr, ast.BinOp, ast.Call, ast.Name)):
+                continue
+            if isinstance(e, ast.Call) and not (isinstance(e.func, ast.Attribute) and e.func.attr in ("format", "join")):
+                continue
+            ev = ev or S.Evaluator(repo, f)
+            try:
+                sh = ev.string(e)
+            except Exception:
+                continue
+            if not S.literals(sh):
+                continue
             seq = []
-            for v in js.values:
-                if isinstance(v, ast.FormattedValue):
-                    idx = _child_indices(p.trace(v.value))
-                    if idx:
-                        seq.append(sorted(idx))
-            if len(seq) >= 2:
-                r.site(L.site(f, js, "printer"))
+            for h in S.holes(sh):
+                try:
+                    idx = _child_indices(p.trace(h))
+                except KeyError:
+                    idx = set()
+                if idx:
+                    seq.append(sorted(idx))
+            if len(seq) >= 2 and once(e, "printer"):
+                r.site(L.site(f, e, "printer"))
+                seen_kinds.add("printer")
                 if seq == [["0"], ["1"]]:
-                    r.ok({"function": f.qn, "template": unparse(js, 60), "operand_order": seq})
+                    r.ok({"function": f.qn, "template": unparse(e, 60), "operand_order": seq})
                 else:
-                    r.fail(Finding(rid, f, "printer:operand-order", f"printer {unparse(js, 60)} emits operands from children {seq}; expected [0] then [1]", node=js))
-    # (d) assignment target is child 0's value, evaluated operand from child 1 (evaluate_expression)
-    r.require_sites(8)
+                    r.fail(Finding(rid, f, "printer:operand-order", f"printer {unparse(e, 60)} emits operands from children {seq}; expected [0] then [1]", node=e))
+    need = {"table:" + t for t in tables} | {"construct", "rebuild", "printer"}
+    if not need <= seen_kinds:
+        raise AnalysisError(f"rule {rid}: no site of kind {sorted(need - seen_kinds)} found -- the anchors this rule needs have vanished")
+    r.require_sites(6)
     return r
+
+
+def _two_elements(p, e: ast.AST):
+    """[a, b] literal, or a local name whose single definition is one"""
+    if isinstance(e, (ast.List, ast.Tuple)) and len(e.elts) == 2:
+        return e.elts
+    if isinstance(e, ast.Name):
+        try:
+            at = p.node_of(e)
+        except KeyError:
+            return None
+        defs = [d for d in p.rd.defs_reaching(at, e.id) if d != p.g.entry]
+        if len(defs) == 1:
+            st = p.g.stmt[defs[0]]
+            if isinstance(st, (ast.Assign, ast.AnnAssign)) and st.value is not None:
+                return _two_elements(p, st.value) if not isinstance(st.value, ast.Name) else None
+    return None
 
 
 def rule_env(repo: Repo) -> RuleResult:
